@@ -154,26 +154,32 @@ def rows : P (Option (Mat Float)) := do
 /-- The container glue (`TryInto<Arr2D<f64>, Error = Arr2DError>`), by container kind:
 `vv` = `Vec<Vec<f64>>`, `rvv` = `&Vec<Vec<f64>>`, `rvi` = `&Vec<Vec<i32>>` (a nested vector with no
 row converts to the 0×0 array whatever width the request names), `ra` = `&Arr2D<f64>`,
-`rai` = `&Arr2D<i32>` (any shape, also 0×w and h×0), `vvj`/`rvvj` = jagged nested vectors.
+`rai` = `&Arr2D<i32>` (any shape, also 0×w and h×0), `rvs`/`ras` and `rvu`/`rau` = the same two
+containers with `f32` and `u8` elements, `vvj`/`rvvj` = jagged nested vectors.
 Integer kinds carry floats whose values are integers; the conversion to `f64` is exact. -/
 def input (kind : String) : P (Option (Mat Float)) :=
   match kind with
   | "vvj" | "rvvj" => rows
-  | "vv" | "rvv" | "rvi" => do
+  | "vv" | "rvv" | "rvi" | "rvs" | "rvu" => do
     let m ← mat Wire.float
     return some (if m.h = 0 then ⟨0, 0, #[]⟩ else m)
-  | "ra" | "rai" => do
+  | "ra" | "rai" | "ras" | "rau" => do
     let m ← mat Wire.float
     return some m
   | _ => fail
 
-/-- weighted sum of magnitudes and mask of negative entries of a result (the compact answer of the
+/-- weighted sum of magnitudes and mask of the (non-negligible) negative entries of a result (the compact answer of the
 `lu3`/`plu3` sweeps; the harness computes the same digest from the implementation's matrices) -/
 def digest (ms : List (Mat Float)) : String :=
   let xs : List Float := ms.foldl (fun acc m => acc ++ m.a.toList) []
+  -- entries below 2^-30 of the largest one do not enter the sign mask: an entry whose exact value is 0 comes
+  -- out as 0 or as ±1e-17 depending on the order of the floating-point sums (the weighted sum is compared
+  -- numerically and does not notice them)
+  let big : Float := xs.foldl (fun m x => if m < x.abs then x.abs else m) 0.0
+  let thr : Float := big * Float.ofBits 0x3E10000000000000
   let r := xs.foldl (fun (acc : Float × Nat × Nat) (x : Float) =>
     (acc.1 + Float.ofNat (acc.2.2 + 1) * x.abs,
-     (if x < 0 then acc.2.1 ||| (1 <<< acc.2.2) else acc.2.1), acc.2.2 + 1)) (0.0, 0, 0)
+     (if x < 0 ∧ thr ≤ x.abs then acc.2.1 ||| (1 <<< acc.2.2) else acc.2.1), acc.2.2 + 1)) (0.0, 0, 0)
   fmtF r.1 ++ " " ++ toString r.2.1
 
 /-- `lu3`/`plu3 a00 … a12`: the 125 integer matrices over −2..2 with these first two rows -/
